@@ -138,6 +138,44 @@ func (g *gen) policyScenario(w *world, pa, pb int, form int) {
 		} else if ea || eb {
 			olog.viol("C16", "encrypted-without-common-version", fmt.Sprintf("policies %d/%d", pa, pb))
 		}
+	case 3: // a tagged plaintext written by somebody else: version tags in any order, unknown tags among them
+		hdr := " \t  \t\t\t\t \t \t \t  "
+		tags := map[int]string{1: " \t \t  \t ", 2: "  \t\t  \t ", 3: "  \t\t  \t\t", 9: "\t\t\t\t    ", 8: " \t\t\t\t\t\t "}
+		order := []int{1, 2, 3, 9, 8}
+		g.r.Shuffle(len(order), func(i, j int) { order[i], order[j] = order[j], order[i] })
+		order = order[:1+g.r.Intn(len(order))]
+		m := append(append([]byte{}, text...), []byte(hdr)...)
+		offered := 0
+		for _, v := range order {
+			m = append(m, []byte(tags[v])...)
+			if v == 2 || v == 3 {
+				offered |= 1 << uint(v)
+			}
+		}
+		plain, ts, _, _ := w.recv(b, m)
+		checkWire(b, pb, ts)
+		versionAllowed(b, pb, fmt.Sprintf("tagged plaintext with tags %v", order))
+		if pb&6 != 0 && !bytes.Equal(plain, text) {
+			olog.viol("C16", "plaintext-altered", fmt.Sprintf("policy %d: text %q followed by the tag header and version tags %v was delivered as %q", pb, text, order, plain))
+		}
+		want := 0
+		if pb&32 != 0 {
+			switch {
+			case pb&4 != 0 && offered&8 != 0:
+				want = 3
+			case pb&2 != 0 && offered&4 != 0:
+				want = 2
+			}
+		}
+		got := 0
+		for _, t := range reassembleAll(ts) {
+			if v := wireVersion(t); v != 0 {
+				got = v
+			}
+		}
+		if got != want {
+			olog.viol("C16", "wrong-version-negotiated", fmt.Sprintf("policy %d, tagged plaintext offering tags %v: answered with a version %d message, expected version %d (0 = none)", pb, order, got, want))
+		}
 	default: // odd offer forms straight into B
 		offers := []string{"?OTRv4?", "?OTR?v2?", "?OTRv23x?", "?OTR?", "?OTRv?", "?OTRv32?", "?OTR?v?", "?OTRv9923?", "?OTRv2", "?OTRv3? hi"}
 		m := []byte(offers[g.r.Intn(len(offers))])
@@ -168,12 +206,12 @@ func init() {
 				}
 			}
 			for i := 0; i < n-4096; i++ {
-				g.policyScenario(w, g.r.Intn(64)*2, g.r.Intn(64)*2, g.r.Intn(3))
+				g.policyScenario(w, g.r.Intn(64)*2, g.r.Intn(64)*2, g.r.Intn(4))
 			}
 			extra["exhaustive_policy_pairs"] = true
 		} else {
 			for i := 0; i < n; i++ {
-				g.policyScenario(w, g.r.Intn(64)*2, g.r.Intn(64)*2, g.r.Intn(3))
+				g.policyScenario(w, g.r.Intn(64)*2, g.r.Intn(64)*2, g.r.Intn(4))
 			}
 		}
 		extra["panics"] = panicCount
